@@ -18,8 +18,11 @@ VERIF = os.path.dirname(os.path.dirname(os.path.abspath(__file__)))
 REPO = os.environ.get('VERIF_REPO', '/repo')
 COQ = os.path.join(VERIF, 'coq')
 BUILD = os.path.join(VERIF, 'build')
-REPLAYS = os.path.join(VERIF, 'replays')
-EVIDENCE = os.path.join(VERIF, 'evidence')
+# VERIF_OUT redirects what a run writes (evidence, replays) - used only by tools/seeded.py and tools/harmless.py so that
+# runs against a changed tree never touch the committed evidence; the registered commands do not set it
+OUT = os.environ.get('VERIF_OUT', VERIF)
+REPLAYS = os.path.join(OUT, 'replays')
+EVIDENCE = os.path.join(OUT, 'evidence')
 NPROC = int(os.environ.get('VERIF_JOBS', '16'))
 
 TRUSTED_BASE = [
